@@ -163,3 +163,46 @@ func VerifMatchVarassign(text string) (res VerifVarassign, panicked string) {
 	})
 	return
 }
+
+// VerifVarassignLine is matchVarassign on one logical line of a file, as
+// MkLineParser.Parse drives it (split, tokenize, matchVarassign) on the real
+// *Line that convertToLogicalLines built (several raw lines when continued).
+type VerifVarassignLine struct {
+	Text     string
+	NRaw     int
+	Res      VerifVarassign
+	Panicked string
+}
+
+// VerifMatchVarassignLines loads rawText as a makefile fragment (backslash
+// continuation lines joined) and runs matchVarassign on every logical line.
+func VerifMatchVarassignLines(rawText string) (out []VerifVarassignLine, panicked string) {
+	panicked = VerifPanic(func() {
+		lines := convertToLogicalLines(NewCurrPathString("verif.mk"), rawText, true)
+		for _, line := range lines.Lines {
+			line := line
+			var l VerifVarassignLine
+			l.Text, l.NRaw = line.Text, len(line.raw)
+			l.Panicked = VerifPanic(func() {
+				p := NewMkLineParser()
+				text := line.Text
+				splitResult := p.split(text, true)
+				splitResult.tokens = p.tokenize(splitResult.main, line)
+				m, a := p.matchVarassign(line, text, &splitResult)
+				res := &l.Res
+				res.Matched = m
+				res.Main, res.SpaceBeforeComment = splitResult.main, splitResult.spaceBeforeComment
+				res.HasComment, res.Comment = splitResult.hasComment, splitResult.comment
+				if !m {
+					return
+				}
+				res.Commented, res.Varname, res.SpaceAfterVarname = a.commented, a.varname, a.spaceAfterVarname
+				res.Op, res.Value = a.op.String(), a.value
+				mkline := &MkLine{line, splitResult, a}
+				res.ValueAlignPanic = VerifPanic(func() { res.ValueAlign = mkline.ValueAlign() })
+			})
+			out = append(out, l)
+		}
+	})
+	return
+}
